@@ -190,6 +190,7 @@ def plan_for(prop, tier, seed):
         p.nontrivial = lambda sc: sum(1 for c in sc["calls"] if c["name"] in ("sleep", "wake")) >= 2
         p.families = [
             ("lifecycle", True, "dev", lambda ids, rng: G.f_lifecycle(ids, rng, n_per_model=6 if q else 80, length=12 if q else 30)),
+            ("lifecycle-faults", True, "dev", lambda ids, rng: G.f_lifecycle(ids, rng, n_per_model=5 if q else 60, length=10 if q else 24, fault_rate=0.5)),
             ("model-init", True, "dev", lambda ids, rng: G.f_model_init(ids, rng, full=False, after=False)),
         ]
     elif prop == "C16":
@@ -209,6 +210,7 @@ def plan_for(prop, tier, seed):
         p.tables = [("colours", True, "dev", lambda rng: G.t_colours(rng, full666=not q))]
         p.families = [
             ("colour-displays", True, "dev", lambda ids, rng: G.f_colour_displays(ids, rng)),
+            ("colour-sequences", True, "dev", lambda ids, rng: G.f_small_alphabet(ids, rng, 400 if q else 6000, ifaces=("spi", "spi", "p8", "p16"), tag="colour")),
             ("model-init", True, "dev", lambda ids, rng: G.f_model_init(ids, rng, full=False, after=False)),
         ]
     elif prop == "C14":
